@@ -57,7 +57,13 @@ def search(chk, n_cases):
         T = rng.choice([0.0, 0.3, 2.0])
         corr = oqupy.PowerLawSD(alpha=alpha, zeta=rng.choice([1, 1, 3]), cutoff=rng.choice([1.0, 5.0]),
                                 cutoff_type=rng.choice(["exponential", "gaussian"]), temperature=T)
-        op = rng.choice([0.5 * sz, 0.5 * sx + 0.3 * sz])
+        op = rng.choice([0.5 * sz, 0.5 * sx + 0.3 * sz, 0.3 * sx + 0.4 * sy, 0.5 * sy + 0.2 * sz])      # incl. complex eigenbases
+        forced_storage = None
+        if it < 3:
+            # every run: a coupling operator with a complex eigenbasis through PT-TEMPO written to a file / exported and imported, and through TEMPO
+            method = ["pttempo", "pttempo", "tempo"][it]
+            forced_storage = ["file-backed", "exported+imported", None][it]
+            op = rng.choice([0.3 * sx + 0.4 * sy, 0.5 * sy + 0.2 * sz])
         bath = oqupy.Bath(op, corr)
         dkmax = rng.choice([None, None, 2])
         dt, n = 0.1, rng.randint(3, 6)
@@ -77,8 +83,23 @@ def search(chk, n_cases):
             if method == "tempo":
                 states = quiet(oqupy.Tempo(sysm, bath, par, rho0, 0.0).compute, n * dt, progress_type="silent").states
             elif method == "pttempo":
-                pt = quiet(oqupy.pt_tempo_compute, bath, 0.0, n * dt, parameters=par, progress_type="silent")
+                # in memory, written directly to a file, or exported and imported again
+                storage = forced_storage or rng.choice(["memory", "file-backed", "exported+imported"])
+                info["process_tensor"] = storage
+                pt = quiet(oqupy.pt_tempo_compute, bath, 0.0, n * dt, parameters=par, process_tensor_file=True if storage == "file-backed" else None,
+                           progress_type="silent")
+                if storage == "exported+imported":
+                    import tempfile, os
+                    fn_ = os.path.join(tempfile.mkdtemp(prefix="c04_"), "pt.hdf5")
+                    pt.export(fn_)
+                    pt = oqupy.import_process_tensor(fn_, "file")
                 states = quiet(oqupy.compute_dynamics, sysm, initial_state=rho0, process_tensor=pt, subdiv_limit=None, progress_type="silent").states
+                if storage == "file-backed":
+                    pt.remove()
+                elif storage == "exported+imported":
+                    pt.close()
+                    import shutil
+                    shutil.rmtree(os.path.dirname(fn_), ignore_errors=True)
             elif method == "meanfield":
                 s = oqupy.TimeDependentSystemWithField(lambda t, a: h0 + 0.2 * (a.real) * sz, gammas=[lambda t: 0.1], lindblad_operators=[lambda t: sm])
                 mfs = oqupy.MeanFieldSystem([s], field_eom=lambda t, st, a: -0.2 * a + 0.3 * np.trace(st[0] @ sm))
